@@ -4,7 +4,7 @@ From ClapModel Require Import Base.Bytes Base.Machine Base.Utf8 Lex.OsStrExtMode
 From ClapModel Require Import Parse.Cmd Parse.Build Parse.Valid Parse.Matcher Parse.Errors Parse.Validator Parse.Parser.
 From ClapModel Require Import ParseProofs.Totality ParseProofs.Actions ParseProofs.Sources ParseProofs.Unparse ParseProofs.UnparseProofs ParseProofs.UnparseTop
                               ParseProofs.UnparseSub ParseProofs.UnparseTrail ParseProofs.UnparseTree ParseProofs.KindSound ParseProofs.SourcesLine
-                              ParseProofs.SourcesDefaults.
+                              ParseProofs.SourcesDefaults ParseProofs.SourcesLineGlobals.
 From Coq Require Import ZArith List Bool.
 From RecordUpdate Require Import RecordSet.
 Import RecordSetNotations.
@@ -150,4 +150,26 @@ Module SrcEx.
                    ([98], Some SDefault, [[[120]]]); ([103], Some SDefault, [[s_false]]);
                    ([104], Some SDefault, [[s_false]]); ([107], Some SDefault, [[[90]]]); ([110], Some SDefault, [[[78]]])].
   Proof. eexists. split; [vm_compute; reflexivity|]. reflexivity. Qed.
+
+  (** a tree with a global argument: prog --aa (env) --gl <v> (Set, GLOBAL, default "0") --nn <v>; run as above.
+      line: prog --nn=V run --gl=S --zz.  The parser stores [gl] = "0" (DefaultValue) at the root and
+      [gl] = "S" (CommandLine) in [run]; the reported root entry is the merged one (CommandLine "S"). *)
+  Definition gl : arg := (arg_new [103;108]) <| a_long := Some [103;108] |> <| a_action := Some ASet |> <| a_global := true |> <| a_default := [[48]] |>.
+  Definition t3 : cmd := (cmd_new [112]) <| c_args := [a; gl; n] |> <| c_subs := [run] |>.
+  Definition cb3 : cmd := build_self (with_bin t3 tbin).
+  Definition ginv : inv := ISub [ItLongEq [110;110] [86]] [114;117;110] (ILeaf [ItLongEq [103;108] [83]; ItLong [122;122]]).
+  Definition gmp : matches := match parse_top t3 (tbin :: render_inv ginv) with OOk ms => ms | _ => Matches [] None end.
+  Definition gst : ps := match run_inv cb3 ginv with ROk st => st | _ => ps_new end.
+  Example ex_globals :
+    valid (with_bin t3 tbin) = true /\ wf_inv cb3 ginv = true /\
+    no_globals (build_recursive (S (S (depth cb3))) (with_bin t3 tbin)) = false /\
+    parse_top t3 (tbin :: render_inv ginv) = OOk gmp /\ run_inv cb3 ginv = ROk gst /\
+    summary (into_inner (mt gst)) = [([110], Some SCmdLine, [[[86]]]); ([97], Some SEnv, [[[69;49]]]); ([103;108], Some SDefault, [[[48]]])] /\
+    summary gmp = [([110], Some SCmdLine, [[[86]]]); ([97], Some SEnv, [[[69;49]]]); ([103;108], Some SCmdLine, [[[83]]])] /\
+    at_level2 cb3 ginv (into_inner (mt gst)) gmp cb3 ginv (into_inner (mt gst)) gmp.
+  Proof.
+    split; [vm_compute; reflexivity|]. split; [vm_compute; reflexivity|]. split; [vm_compute; reflexivity|].
+    split; [vm_compute; reflexivity|]. split; [vm_compute; reflexivity|]. split; [vm_compute; reflexivity|].
+    split; [vm_compute; reflexivity|]. apply AL2_here.
+  Qed.
 End SrcEx.
